@@ -1,0 +1,70 @@
+//go:build verif
+
+package hclwrite
+
+// Export of the loaded tree's SHAPE for the verification harness in /verif
+// (property C10). This file is compiled only with -tags verif and adds no
+// behaviour: it only reads the tree built by parse().
+
+// VerifLoadNode is a read-only picture of one node of the writer tree.
+// Kind is one of: "file", "body", "attribute", "block", "labels",
+// "expression", "traversal", "traverseName", "traverseIndex" (inner nodes) and
+// "tokens", "comments", "identifier", "number", "quoted" (leaves).
+// NTokens is the number of tokens BuildTokens yields for the node.
+type VerifLoadNode struct {
+	Kind     string
+	NTokens  int
+	Children []VerifLoadNode
+}
+
+func verifLoadChildren(ns *nodes) []VerifLoadNode {
+	var out []VerifLoadNode
+	for n := ns.first; n != nil; n = n.after {
+		out = append(out, verifLoadNode(n))
+	}
+	return out
+}
+
+func verifLoadNode(n *node) VerifLoadNode {
+	ret := VerifLoadNode{NTokens: len(n.BuildTokens(nil))}
+	switch c := n.content.(type) {
+	case *Body:
+		ret.Kind, ret.Children = "body", verifLoadChildren(c.children)
+	case *Attribute:
+		ret.Kind, ret.Children = "attribute", verifLoadChildren(c.children)
+	case *Block:
+		ret.Kind, ret.Children = "block", verifLoadChildren(c.children)
+	case *blockLabels:
+		ret.Kind, ret.Children = "labels", verifLoadChildren(c.children)
+	case *Expression:
+		ret.Kind, ret.Children = "expression", verifLoadChildren(c.children)
+	case *Traversal:
+		ret.Kind, ret.Children = "traversal", verifLoadChildren(c.children)
+	case *TraverseName:
+		ret.Kind, ret.Children = "traverseName", verifLoadChildren(c.children)
+	case *TraverseIndex:
+		ret.Kind, ret.Children = "traverseIndex", verifLoadChildren(c.children)
+	case Tokens:
+		ret.Kind = "tokens"
+	case *comments:
+		ret.Kind = "comments"
+	case *identifier:
+		ret.Kind = "identifier"
+	case *number:
+		ret.Kind = "number"
+	case *quoted:
+		ret.Kind = "quoted"
+	default:
+		ret.Kind = "unknown"
+	}
+	return ret
+}
+
+// VerifLoadTree returns the shape of the whole tree of a loaded file.
+func VerifLoadTree(f *File) VerifLoadNode {
+	return VerifLoadNode{
+		Kind:     "file",
+		NTokens:  len(f.children.BuildTokens(nil)),
+		Children: verifLoadChildren(f.children),
+	}
+}
